@@ -90,8 +90,8 @@ CHECKS.update({
         design="6 C11"),
     "C14": dict(
         technique="Coq model of parse_filesize (ladder regenerated from util/mod.rs) and of format_filesize / humansize with binary64 arithmetic in Z (round-to-nearest-even proved) + theorems against the documented unit table + exact differential test of the real functions against the model and documentation-level oracles on the real functions and the binary",
-        text="C14_ladder_is_the_documented_table (the regenerated ladder reaches every documented unit with its documented multiplier, without shadowing, and has no other unit), C14_units_exact (every integer x every unit spelling below 2^53), C14_fraction_exact (dyadic fractions: floor(number x multiplier)), C14_format_documented_examples (the fifteen documented rows), C14_format_roundtrip/monotone_below_2_16 and _grid (finite domains), C14_rounding_is_nearest_even. On every run: literals through the real parse_filesize vs number x documented multiplier; `size OP literal` on boundary sizes on the binary; FORMAT_SIZE specifiers judged from the documented grammar (unit, space, decimals, value, short flag); monotone / reads-back on random sizes; model.Size = real functions exactly.",
-        note="Monotonicity and read-back of the rendering are finite-domain theorems (every size below 2^16 and all 2^k-1, 2^k, 2^k+1), not proofs for all sizes; beyond 2^53 a literal loses low bits in binary64 (units_exact_bound_sharp); rendering uses PiB/EiB which literals cannot express; specifiers the documentation does not describe are compared with the model only. Trusted: humansize 2.1.3 transcription (validated every run), SoftF64 parse/print of decimal texts (differentially tested).",
+        text="C14_ladder_is_the_documented_table (the regenerated ladder reaches every documented unit with its documented multiplier, without shadowing, and has no other unit), C14_units_exact (every integer x every unit spelling below 2^53), C14_fraction_exact (dyadic fractions: floor(number x multiplier)), C14_format_documented_examples (the fifteen documented rows), C14_format_monotone (EVERY pair of u64 sizes, across unit boundaries), C14_format_roundtrip (every size below 2^50 = 1 PiB, the bound sharp: parse_filesize has no unit above TiB), C14_format_accuracy (every u64: half a unit of the last digit plus the u64->binary64 conversion error, which is 0 below 2^53) with the refutation of half-a-unit-alone at 9046605751480483 bytes, C14_rounding_is_nearest_even. On every run: literals through the real parse_filesize vs number x documented multiplier; `size OP literal` on boundary sizes on the binary; FORMAT_SIZE specifiers judged from the documented grammar (unit, space, decimals, value, short flag); monotone / reads-back on random sizes; model.Size = real functions exactly.",
+        note="Monotonicity / read-back / accuracy are proved for the default rendering (specifier ''), the other specifiers are differential tests; beyond 2^53 a literal loses low bits in binary64 (units_exact_bound_sharp); rendering uses PiB/EiB which literals cannot express; specifiers the documentation does not describe are compared with the model only. Trusted: humansize 2.1.3 transcription (validated every run), SoftF64 parse/print of decimal texts (differentially tested).",
         design="6 C14"),
     "C15": dict(
         technique="Coq proofs over the model of the parser and of the Display text of expressions: for EVERY arithmetic expression (numbers, columns, leading minus, + - * / %), rendering with exactly the brackets the documented precedence/associativity requires and parsing with the model of Parser::parse_add_sub (parser's own fuel) returns that very tree; the Display text that keys the per-row value cache is injective on such expressions + executable model of the whole pipeline with witnesses + differential test of select lists and WHERE expressions",
